@@ -19,6 +19,7 @@ import builtins
 import enum
 import functools
 import inspect
+import math
 import types
 from typing import Any, Callable, List, NamedTuple, Optional, Sequence, Type, Union
 
@@ -238,11 +239,19 @@ def _convert_int(value: Any, conversion_fn: PyValToCstFunc) -> cst.CSTNode:
   return cst.parse_expression(repr(value))
 
 
+def _float_source(value: float) -> str:
+  """Returns Python source for a float, including `inf` and `nan`."""
+  if math.isfinite(value):
+    return repr(value)
+  # repr() of a non-finite float ('inf', '-inf', 'nan') is not an expression.
+  return f'float({repr(value)!r})'
+
+
 @register_py_val_to_cst_converter(float)
 def _convert_float(value: Any, conversion_fn: PyValToCstFunc) -> cst.CSTNode:
   """Converts a constant float to CST."""
   del conversion_fn  # Not used.
-  return cst.parse_expression(repr(value))
+  return cst.parse_expression(_float_source(value))
 
 
 @register_py_val_to_cst_converter([bool, type(None)])
@@ -270,6 +279,10 @@ def _convert_ellipsis(value: Any, conversion_fn: PyValToCstFunc) -> cst.CSTNode:
 def _convert_complex(value: Any, conversion_fn: PyValToCstFunc) -> cst.CSTNode:
   """Converts a constant complex number to CST."""
   del conversion_fn  # Not used.
+  if not (math.isfinite(value.real) and math.isfinite(value.imag)):
+    return cst.parse_expression(
+        f'complex({_float_source(value.real)}, {_float_source(value.imag)})'
+    )
   if value.real:
     return cst.BinaryOperation(
         left=cst.Float(repr(value.real)),
